@@ -17,6 +17,8 @@ Scenarios ==
   \* a pager that stops reading but stays alive, with more output than the pipe holds / that fits into it
   \cup [mode : {"stdin", "wrap"}, out : {"pager"}, quit : {1, 10, 5000}, status : {0}, src : {{}, {"config"}, {"pager"}},
         pagerval : {"envpager"}, stay : {TRUE}, big : BOOLEAN, how : {"files"}]
+  \* informational output with a reader that goes away
+  \cup Join([mode : {"showconfig", "version"}, out : {"stdout"}, quit : 0..3, status : {0}, src : {{}}, pagerval : {"envpager"}], Base)
   \* two-file mode: the same path twice; an option the differ rejects
   \cup [mode : {"diff"}, out : {"stdout", "pager"}, quit : {0}, status : {0, 2}, src : {{}}, pagerval : {"envpager"},
         stay : {FALSE}, big : {FALSE}, how : {"samepath", "badopt"}]
